@@ -230,8 +230,9 @@ fn main() {
         // every such path also as the path half of a dependency (accepted exactly when the path is)
         if s.len() <= 6 {
             t.transitions += 2;
-            check_depend(t, "p-[0-9]*", &p, &[0, 1, 0]);
-            check_depend(t, "p>=1", &format!("/{}", p), &[0, 1, 0]);
+            let (x, y) = if s.len() % 2 == 0 { ("p-[0-9]*", "p>=1") } else { ("p>=1", "p-[0-9]*") };
+            check_depend(t, x, &p, &[0, 1, 0]);
+            check_depend(t, y, &format!("/{}", p), &[0, 1, 0]);
         }
         t.sample(run.seed, s.iter().fold(1u64, |a, x| a * 7 + *x as u64), || json!({"path": p}));
     });
